@@ -25,7 +25,8 @@ def main():
         print(f"no check for {prop}: {e}", file=sys.stderr)
         return 2
     check = mod.CHECK
-    rc = core.run_check(check, a.tier, seed, replay_path=a.replay, cases_override=a.cases)
+    runner = core.run_rust_check if isinstance(check, core.RustCheck) else core.run_check
+    rc = runner(check, a.tier, seed, replay_path=a.replay, cases_override=a.cases)
     return rc
 
 
